@@ -306,13 +306,21 @@ fn run(a: &vhcore::Args) -> i32 {
         let step = (seqs.len() / l.max(1)).max(1);
         seqs = seqs.into_iter().step_by(step).collect();
     }
-    let release = false;
+    // profiles: quick = debug; thorough = debug and release (release drops dead configurables from the
+    // data section and the ABI and runs the optimizer over the decode-and-read path)
+    let profiles: Vec<bool> = if thorough { vec![false, true] } else { vec![false] };
     let confs: Vec<Vec<Conf>> = seqs.iter().map(|s| configurables(s)).collect();
     let srcs: Vec<String> = confs.iter().map(|c| source(c)).collect();
     let reqs: Vec<Request> = srcs
         .iter()
         .enumerate()
-        .map(|(i, s)| request(i as u64, &format!("c13_p{i}"), s, vec![spec("F", release, false, true, false)]))
+        .map(|(i, s)| {
+            let builds = profiles
+                .iter()
+                .map(|&rel| spec(if rel { "F-release" } else { "F-debug" }, rel, false, true, false))
+                .collect();
+            request(i as u64, &format!("c13_p{i}"), s, builds)
+        })
         .collect();
     let mut pool = Pool::new(a.jobs, vhcore::work_dir("C13/pool"));
     pool.recycle_after = 300;
@@ -347,15 +355,24 @@ fn run(a: &vhcore::Args) -> i32 {
                 0, st.outcomes, st.offsets, 0,
             ),
             Ok(r) => {
-                let b = &r.builds[0];
-                if !b.ok {
-                    return (
-                        vec![Finding { key: build_failure_key(b), what: build_failure_text(b), patch: None, expect_logs: vec![], observed: String::new() }],
-                        0, st.outcomes, st.offsets, b.millis,
-                    );
+                let mut all = vec![];
+                let mut ms = 0;
+                for (pi, &rel) in profiles.iter().enumerate() {
+                    let b = &r.builds[pi];
+                    ms += b.millis;
+                    let mut fs = if !b.ok {
+                        vec![Finding { key: build_failure_key(b), what: build_failure_text(b), patch: None, expect_logs: vec![], observed: String::new() }]
+                    } else {
+                        evaluate(&confs[i], b, &mut st, None)
+                    };
+                    if rel {
+                        for f in fs.iter_mut() {
+                            f.key.push_str("|release");
+                        }
+                    }
+                    all.extend(fs);
                 }
-                let f = evaluate(&confs[i], b, &mut st, None);
-                (f, st.runs, st.outcomes, st.offsets, b.millis)
+                (all, st.runs, st.outcomes, st.offsets, ms)
             }
         }
     });
@@ -393,10 +410,12 @@ fn run(a: &vhcore::Args) -> i32 {
         let items: Vec<(String, String, vh_comp::worker::BuildSpec)> = pending
             .iter()
             .enumerate()
-            .map(|(n, (_, (i, _), _))| (format!("c13_alone_r{round}_{n}"), srcs[*i].clone(), spec("A", release, false, true, true)))
+            .map(|(n, (key, (i, _), _))| (format!("c13_alone_r{round}_{n}"), srcs[*i].clone(), spec("A", key.ends_with("|release"), false, true, true)))
             .collect();
         let outs = build_many_mode_a(&pool, &items);
         for (((key, (i, f), n_cases), out), (name, src, _)) in pending.iter().zip(outs).zip(items.iter()) {
+            let release = key.ends_with("|release");
+            let base_key = key.trim_end_matches("|release");
             match out {
                 Ok(b) => {
                     let still: Vec<Finding> = if !b.ok {
@@ -405,9 +424,9 @@ fn run(a: &vhcore::Args) -> i32 {
                         let mut st = EvalStats { runs: 0, outcomes: Default::default(), offsets: Default::default() };
                         evaluate(&confs[*i], &b, &mut st, f.patch.as_ref())
                     };
-                    if let Some(s) = still.iter().find(|s| &s.key == *key) {
+                    if let Some(s) = still.iter().find(|s| s.key == base_key) {
                         let replay = json!({"kind": "patch", "name": name, "release": release, "src": src, "seq": seqs[*i],
-                                            "patch": s.patch, "expect_logs": s.expect_logs, "observed": s.observed, "key": key});
+                                            "patch": s.patch, "expect_logs": s.expect_logs, "observed": s.observed, "key": base_key});
                         for _ in 0..*n_cases {
                             rep.violation(key, &s.what, replay.clone());
                         }
@@ -434,7 +453,8 @@ fn run(a: &vhcore::Args) -> i32 {
         vhcore::machinery_failure("fewer than 2 distinct outcomes");
     }
     rep.set("evaluations", runs);
-    rep.set("builds", reqs.len() as u64);
+    rep.set("builds", (reqs.len() * profiles.len()) as u64);
+    rep.set("scripts", reqs.len() as u64);
     rep.set("patched_runs", runs);
     rep.set("distinct_nontrivial", outcomes.len() as u64);
     rep.set("rule", "distinct observed log vectors of patched runs");
@@ -443,7 +463,7 @@ fn run(a: &vhcore::Args) -> i32 {
     rep.set("patch_and_run_wall_s", run_wall);
     rep.set("sum_worker_build_ms", sum_ms);
     rep.set("jobs", a.jobs as u64);
-    rep.set("profile", "debug");
+    rep.set("profile", if thorough { "debug+release" } else { "debug" });
     rep.set("space", format!("all sequences of ≤{n} configurables over 10 types x {{live, dead}} = {closed} scripts; every live configurable x every boundary value of its type (rich set) + one unpatched run per script"));
     rep.set("exhaustive", limit.is_none());
     if limit.is_some() {
